@@ -421,3 +421,117 @@ TRUSTED_COMMON = [
     "correspondence harness: python case generator, Rust harness crate built against /repo, obs encoding and in-Coq comparison (lib/common.py, coq/Obs.v)",
     "x86_64 target (64-bit usize); Rust language semantics of the transliterated functions",
 ]
+
+
+# ----------------------------------------------------------------------------------------
+# generic flow for properties whose implementation side is a line-oriented harness binary
+class BuildError(Exception):
+    pass
+
+
+def impl_outputs(spec, cases):
+    """run the implementation (all profiles of the spec); returns {profile: [obs]} or raises BuildError"""
+    res = {}
+    for prof in spec.PROFILES:
+        b, out = cargo_build(spec.CRATE, prof)
+        if b is None:
+            raise BuildError(out)
+        rc, lines, err = run_lines(b, [spec.rust_line(c) for c in cases])
+        if rc != 0 or len(lines) != len(cases):
+            raise BuildError("%s %s run failed rc=%s (%d lines for %d cases): %s" % (spec.CRATE, prof, rc, len(lines), len(cases), err[-1000:]))
+        res[prof] = [json.loads(x) for x in lines]
+    return res
+
+
+def run_core_prop(chk, spec):
+    chk.cov["trusted_base"] = TRUSTED_COMMON + spec.TRUSTED
+    chk.assumptions = spec.ASSUME
+    a = stage_a(spec.PROP, None)
+    chk.add_stage_a(a)
+    cases = spec.cases_for(chk.rng, chk.tier)
+    chk.cov["rule"] = spec.RULE
+    tie_broken, outs, mism = None, None, []
+    try:
+        outs = impl_outputs(spec, cases)
+    except BuildError as e:
+        tie_broken = dict(kind="harness-build-or-run-failed", detail=str(e)[-3000:])
+    P = spec.PROFILES
+    if outs:
+        evals = [(spec.model_expr(c), outs[p][i]) for p in P for i, c in enumerate(cases)]
+        mm, err = coq_eval_cases(spec.PROP, spec.IMPORTS, evals, chunk=getattr(spec, "CHUNK", 400))
+        if err:
+            tie_broken = dict(kind="model-evaluation-failed", detail=err)
+        mism = [(P[k // len(cases)], k % len(cases), v) for k, v in mm]
+        chk.cov["evaluations"] = len(evals)
+        chk.cov["traces_validated_against_impl"] = len(evals) - len(mm)
+        chk.cov["distinct_nontrivial"] = len({json.dumps(c) for c in cases if spec.nontrivial(c)})
+        chk.cov["disagreements"] = len(mism)
+        kinds = {}
+        for c in cases:
+            kinds[c[0]] = kinds.get(c[0], 0) + 1
+        chk.cov["case_kinds"] = kinds
+        if hasattr(spec, "distribution"):
+            chk.cov["input_distribution"] = spec.distribution(cases)
+        chk.cov["exhaustive"] = bool(getattr(spec, "EXHAUSTIVE", False))
+        chk.cov["samples"] = [dict(case=spec.rust_line(c), impl=outs[P[0]][i]) for i, c in list(enumerate(cases))[:3] + list(enumerate(cases))[-3:]] + \
+            [dict(pinned_theorem=t) for t in a["theorems"][:6]]
+    broken = (not a["ok"]) or tie_broken or mism
+    found = []
+    if outs:
+        for p in P:
+            for i, c in enumerate(cases):
+                why = spec.predicate(c, outs[p][i])
+                if why:
+                    found.append((p, c, outs[p][i], why))
+    if broken and not found and outs:
+        extra = spec.search_cases(chk.seed)
+        try:
+            o2 = impl_outputs(spec, extra)
+            for p in P:
+                for i, c in enumerate(extra):
+                    why = spec.predicate(c, o2[p][i])
+                    if why:
+                        found.append((p, c, o2[p][i], why))
+        except BuildError:
+            pass
+    # known findings are matched on the failing-case key
+    kf = dict(known_findings(spec.PROP))
+    fresh = []
+    for f in found:
+        key = spec.finding_key(f[1]) if hasattr(spec, "finding_key") else None
+        if key and key in kf:
+            chk.known(key, kf[key])
+        else:
+            fresh.append(f)
+    if fresh:
+        p, c, o, why = min(fresh, key=lambda f: len(json.dumps(f[1])))
+        chk.violation(dict(property=spec.PROP, kind="failing-input", profile=p, case=spec.rust_line(c), implementation_returned=o,
+                           property_requires=why, how_to_replay="./check %s --replay <this file>" % spec.PROP,
+                           other_failing_cases=len(fresh) - 1), True)
+    elif (not a["ok"]) or tie_broken or [m for m in mism if not _is_known(spec, cases[m[1]], kf)]:
+        detail = dict(property=spec.PROP, kind="no-failing-input-found",
+                      stage_a_failures=a["failures"], tie=tie_broken, correspondence=spec.CHANNEL,
+                      first_disagreements=[dict(profile=p, case=spec.rust_line(cases[i]), implementation=outs[p][i], model=v)
+                                           for p, i, v in mism[:5]] if outs else [])
+        chk.violation(detail, False)
+
+
+def _is_known(spec, case, kf):
+    return hasattr(spec, "finding_key") and spec.finding_key(case) in kf
+
+
+def replay_core_prop(chk, spec, rep):
+    if "case" not in rep:
+        print("replay file names no failing input (%s); re-running the check instead" % rep.get("kind"))
+        run_core_prop(chk, spec)
+        return chk.finish()
+    c = spec.parse_case(rep["case"])
+    outs = impl_outputs(spec, [c])
+    bad = False
+    for p in spec.PROFILES:
+        why = spec.predicate(c, outs[p][0])
+        print("replay %s [%s]: implementation returned %s -> %s" % (spec.rust_line(c), p, outs[p][0], why or "property holds"))
+        bad |= bool(why)
+    if bad:
+        print("VIOLATION property=%s replay=(replayed case)" % spec.PROP)
+    return 1 if bad else 0
